@@ -1,1 +1,6 @@
+// The repository's own crate root, compiled unmodified from the working tree (RBP_SRC=/repo/src).
+#![allow(dead_code, unused_imports, clippy::all)]
+include!(concat!(env!("RBP_SRC"), "/main.rs"));
 
+#[path = "verif_driver.rs"]
+pub mod verif_driver;
